@@ -202,6 +202,17 @@ def run(idx: Index, rep: Report, tier: str) -> None:
     # falling off the end is impossible and the last statement raises UPStateMissingFluentError
     last = gv.node.body[-1]
     ok = isinstance(last, ast.Raise) and last.exc is not None and "UPStateMissingFluentError" in norm(last.exc)
+    if not ok:
+        # the same written with the raise as a guard: `if default is None: raise …` followed by `return default` —
+        # no path falls off the end, some path raises the error, and every return gives something known not to be None
+        from ..rules2 import path_facts
+
+        raises = [n for n in gcfg.nodes if n.kind == "raise" and n.ast is not None and "UPStateMissingFluentError" in norm(n.ast)]
+        rets = [n for n in gcfg.nodes if n.kind == "return"]
+        falls_off = any(p.kind not in ("return", "raise") for p in gcfg.g.predecessors(gcfg.exit)) if hasattr(gcfg, "exit") else False
+        found_only = all(n.ast.value is not None and (f"{norm(n.ast.value)} is None", False) in path_facts(gcfg, n) for n in rets)
+        ok = bool(raises) and bool(rets) and found_only and not falls_off
+        last = raises[0].ast if raises else last
     rep.check(ok, rule4, "UPState.get_value: miss path raises UPStateMissingFluentError", gv.loc(last), construct=norm(last)[:100], detail="" if ok else "a fluent with neither value nor default does not raise", function=gv.qualname)
     for n in gcfg.nodes:
         if n.kind == "return":
